@@ -427,8 +427,12 @@ def write_evidence(prop, tier, master, mod, agg: Aggregator, wall, known_seen, n
     faults = {k[len("fault."):]: int(v) for k, v in c.items() if k.startswith("fault.")}
     probes = {k[len("probe."):]: int(v) for k, v in c.items() if k.startswith("probe.")}
     other = {k: (int(v) if float(v).is_integer() else v) for k, v in c.items() if not k.startswith(("fault.", "probe."))}
+    ec = getattr(mod, "EVAL_COUNTER", None)
+    evaluations = int(other.get(ec, 0)) if ec else int(agg.runs)
     cov = {
-        "evaluations": int(agg.runs),
+        "evaluations": max(evaluations, 1) if agg.runs else evaluations,
+        "evaluation_unit": getattr(mod, "EVAL_UNIT", "one seeded scenario (generate + execute)"),
+        "seeds_run": int(agg.runs),
         "distinct_nontrivial": len(agg.nontrivial),
         "rule": mod.RULE,
         "samples": agg.samples[:3] or [{"note": "no sample recorded"}],
